@@ -1,7 +1,7 @@
 (* C02 -- a tick updates exactly the roots and the components whose inputs changed.
    Property theorems only. *)
 From TV Require Import Base Model.Wiring Model.Ticker Model.Component Model.Sim
-  Proofs.WiringP Proofs.TickerP Proofs.ComponentP Proofs.ExtentP.
+  Proofs.WiringP Proofs.TickerP Proofs.ComponentP Proofs.ExtentP Model.PyLib Gen.SourceFuns Proofs.GenOutChangesP.
 
 (* Every dispatch in every run of a tick, under any answer order, is
    - an update (Input) exactly when the component is a root or at least one of its wired input
@@ -71,3 +71,8 @@ Example C02_example :
   run_dc dc_init [([], [(1%positive, 5%Z)]); ([], []); ([], [(1%positive, 5%Z)]); ([], [(1%positive, 5%Z)])]
   = [([], [(1%positive, 5%Z)]); ([], []); ([], [(1%positive, 5%Z)]); ([], [])].
 Proof. vm_compute. reflexivity. Qed.
+
+(* the tie to the source: [diff_outputs] IS the dictionary comprehension of DeviceComponent.on_tick -- the left-hand
+   side is regenerated from /repo by the function translator (harness/gen_funs.py) on every run *)
+Theorem C02_change_filter_is_source : forall last outs : values, gen_out_changes last outs = diff_outputs last outs.
+Proof. exact out_changes_is_source. Qed.
